@@ -123,9 +123,38 @@ func cmpLit(l lit) (op token.Token, x, y ssa.Value, ok bool) {
 	}
 	switch op {
 	case token.EQL, token.NEQ, token.LSS, token.LEQ, token.GTR, token.GEQ:
-		return op, b.X, b.Y, true
+		return op, viaArg(b.X, l.via), viaArg(b.Y, l.via), true
 	}
 	return 0, nil, nil, false
+}
+
+// viaArg: a literal imported from inside a boolean helper speaks about the helper's parameters;
+// as an operand of a comparison, a parameter stands for the argument at the call it came through.
+func viaArg(v ssa.Value, via *ssa.Call) ssa.Value {
+	if via == nil {
+		return v
+	}
+	p, ok := v.(*ssa.Parameter)
+	if !ok {
+		if cv, isConv := v.(*ssa.Convert); isConv {
+			if pp, isP := cv.X.(*ssa.Parameter); isP {
+				p, ok = pp, true
+			}
+		}
+		if !ok {
+			return v
+		}
+	}
+	f := via.Call.StaticCallee()
+	if f == nil || p.Parent() != f {
+		return v
+	}
+	for i, fp := range f.Params {
+		if fp == p && i < len(via.Call.Args) {
+			return via.Call.Args[i]
+		}
+	}
+	return v
 }
 
 // stripConv removes value-preserving conversions.
